@@ -24,7 +24,9 @@ def check(tree, rep, tier='quick', seed=0):
     R.k7_missing_key_raises(core, rep)   # a stored line never reads as missing again (a released waiter would wait forever)
     R.k20_ctrl_c(core, rep)              # the prompt loop ends on end-of-input instead of asking again for ever
     R.k18_cli_store_identity(core, rep)  # an answer marked met is really stored: otherwise the same question returns every round
+    R.k11_input_gate(core, rep)          # ... and is found again by the very test that reported it missing (provides() and the read look in the same place): asked at most once
     R.k31_loops_end(core, rep)           # no loop of the core walks a possibly cyclic table without remembering where it has been
+    R.k13_add_form(core, rep)            # the set of lines being solved only grows: a line that dropped out of it is queued - and evaluated - a second time when somebody reads it
     R.k24_tracker_shape(core, rep)
     R.k24e_waiters_only_tracker_mutates(core, rep)
     rep.floor('core rule obligations', sum(v[0] for k, v in rep.rules.items() if k.startswith('K')), 25)
